@@ -168,6 +168,21 @@ def copyOf (i : Nat) : Nat := i
 /-- `SetUnknownCaption`: `raise ReadOnlyError` -/
 def setUnknownCaption (_i : Nat) (_caption : Sym) : Except ErrKind Unit := .error .readonly
 
+/-- the arguments of a direct call of the constructor protocol on an existing instance:
+`q.__init__(category, unit, caption)` with a category string (simple form; the unit may be `None`) or
+an `OrderedDict` of `category -> [unit, exp]` as `category` and `unit = None` (derived form; the empty
+`OrderedDict` is the empty quantity's form) -/
+inductive InitArg
+  | simple (cat : Sym) (unit : Option Sym)
+  | derived (items : List (Sym × Cell))
+deriving Repr
+
+/-- `Quantity.__init__` run again on an instance that is already configured (every live object is:
+`__init__` assigns `_unknown_unit_caption` before anything else can fail, on the simple and on the
+derived branch alike): `try: self._unknown_unit_caption; return` — the arguments are not looked at,
+nothing is assigned, nothing is raised, the call returns `None` and the caller still holds object `i` -/
+def reInit (i : Nat) (_a : InitArg) (_caption : Option Sym) : Nat := i
+
 /-! ### database lookups used here -/
 
 /-- the tail of `GetDefaultCategory`: `default_category` if truthy, else the quantity type when it is
@@ -574,6 +589,8 @@ inductive Op
   | withunit (q : Nat) (u : Sym)
   | same (a b : Operand)
   | new (div : Bool) (a b : Operand)
+  /-- `q.__init__(category, unit, caption)` / `Quantity.__init__(q, …)` on an existing quantity -/
+  | reinit (q : Nat) (a : InitArg) (cap : Option Sym)
 deriving Repr
 
 inductive Out
@@ -689,6 +706,10 @@ def stepState (db : Db) (g : Guard) (ss : Session) : Op → State × Out
         else let r := obtain db ss.st (.str u) .none none; (r.1, toOut r.2)
   | .same a b => binary db g ss a b (opSame db)
   | .new div a b => binary db g ss a b (fun s i j => opNew db s div i j)
+  | .reinit q a cap =>
+    match resolve ss.results q with
+    | none => (ss.st, .skip)
+    | some i => (ss.st, .ok (reInit i a cap))
 
 def outResult : Out → Option Nat
   | .ok i => some i
